@@ -243,7 +243,7 @@ def run(ctx):
         r = strip_sym(Sym(an[0]).local(0))
         ok, why = (False, "does not build the list from its parameter")
         if r[0] == "agg" and len(r[3]) == 1:
-            ok, why = collected_unchanged(t, r[3][0], 0)
+            ok, why = collected_unchanged(t, r[3][0], 0, fn=an[0])
         chk.ob("C17.c", an[0].path, ok, "the allow-list holds the configured names as given" if ok else f"Allowlist::new does not keep the configured names as given ({why}): a listed field is not admitted under its own name", an[0].loc())
     else:
         chk.unrecognised("C17.c", "<anchor> Allowlist::new", f"found {len(an)}")
